@@ -47,6 +47,24 @@ Fixpoint strip_paths (ps : list string) (k : Z) (name : string) : term :=
       else strip_paths r (k + 1) name
   end.
 
+(* the "Active filters" block a text / top / tree / peek report prints for the configuration cfg *)
+Definition legend_cmds : list string := ["text"; "top"; "tree"; "peek"].
+Definition legend_block (active : list string) : term :=
+  match legend_active_filters active with
+  | Ok ls => of_ss ls
+  | Err => TS "<err>"
+  | Panic s => of_outcome_panic s
+  end.
+Fixpoint legends_of (evs : list event) (k : Z) : list term :=
+  match evs with
+  | [] => []
+  | EReport (c :: _) cfg :: r =>
+      (if existsb (String.eqb c) legend_cmds then [TL [TZ k; legend_block (active_filters config_fields cfg)]] else [])
+      ++ legends_of r (k + 1)
+  | EReport [] _ :: r => legends_of r (k + 1)
+  | _ :: r => legends_of r k
+  end.
+
 Definition run_C09 (i : term) : term :=
   let op := gs (gn i 0) in
   if String.eqb op "tagrange" then
@@ -93,8 +111,8 @@ Definition run_C09 (i : term) : term :=
     let pf := pf_of (gn i 5) in
     let start := match configure config_fields pf dflt "compact_labels" "true" with Ok c => c | _ => dflt end in
     match session config_fields pf commands help_keys (gss (gn i 2)) (gs (gn i 3)) start (gss (gn i 4)) [] with
-    | SCont c evs => TL [TS "ok"; TL (map of_event evs); of_cfg c; TL []]
-    | SQuit c evs => TL [TS "ok"; TL (map of_event evs); of_cfg c; TL []]
+    | SCont c evs => TL [TS "ok"; TL (map of_event evs); of_cfg c; TL []; TL (legends_of evs 0)]
+    | SQuit c evs => TL [TS "ok"; TL (map of_event evs); of_cfg c; TL []; TL (legends_of evs 0)]
     | SPanic evs s => TL [of_outcome_panic s; TL (map of_event evs); TL []; TL []]
     end
   else if String.eqb op "web" then
@@ -109,7 +127,7 @@ Definition run_C09 (i : term) : term :=
                        end
                      else TS "any") (gl (gn i 2)))]
   else if String.eqb op "cli" then
-    if gz (gn i 3) =? 0 then TL [TS "error"] else TL [TS "any"]
+    if gz (gn i 3) =? 0 then TL [TS "error"] else TL [TS "any"; legend_block (cli_active_filters (gss (gn i 1)))]
   else if String.eqb op "symmode" then
     match symbolize_mode (gs (gn i 1)) with
     | Ok (n, label) => TL [TS "ok"; TZ n; TS label]
@@ -118,7 +136,7 @@ Definition run_C09 (i : term) : term :=
     end
   else TL [TS "unknown-op"].
 
-(* classes >= 900: comparison skipped.  900 = a line or sample type holds bytes >= 0x80 (the model's
+(* classes >= 900: comparison skipped.  900 = a line or sample type holds Unicode white space (UTF-8 sequences of U+0085, U+00A0, U+1680, U+20xx, U+205F, U+3000; was: any byte >= 0x80) (the model's
    TrimSpace/Fields know ASCII white space only); 901 = a build id that makes filepath.Glob look
    outside the (empty) search directory or is a malformed pattern *)
 Definition glob_unsafe (b : string) : bool :=
@@ -145,7 +163,7 @@ Definition f38 (i : term) : list Z := [].
 Definition cls_C09 (i : term) : list Z :=
   let op := gs (gn i 0) in
   if String.eqb op "session" then
-    ((if existsb (str_existsb is_high) (gss (gn i 4) ++ gss (gn i 2)) then [900] else [])
+    ((if existsb has_unicode_space (gss (gn i 4) ++ gss (gn i 2)) then [900] else [])
      ++ f25 (gn i 6) (existsb (contains_sub "weblist") (gss (gn i 4))))%list
   else if String.eqb op "locate" then
     if existsb (fun m => glob_unsafe (gs (gn m 1))) (gl (gn i 2)) then [901] else []
@@ -174,7 +192,10 @@ Definition eqv_C09 (i m o : term) : bool :=
   else if String.eqb op "session" then
     term_eqb (gn m 0) (gn o 0) &&
     term_eqb (gn m 1) (TL (filter not_rerr (gl (gn o 1)))) &&
-    term_eqb (gn m 2) (gn o 2)
+    term_eqb (gn m 2) (gn o 2) &&
+    (* every legend parsed back from a captured report output is the one the model derives from the
+       configuration of that report *)
+    forallb (fun e => existsb (term_eqb e) (gl (gn m 4))) (gl (gn o 4))
   else if String.eqb op "web" then
     match gn m 0 with
     | TS "error" => term_eqb (gn o 0) (TS "error")
@@ -194,7 +215,10 @@ Definition eqv_C09 (i m o : term) : bool :=
   else if String.eqb op "cli" then
     match gn m 0 with
     | TS "error" => term_eqb (gn o 0) (TS "error")
-    | _ => true
+    | _ => match gl o with
+           | [_; legend] => term_eqb legend (gn m 1)
+           | _ => true
+           end
     end
   else term_eqb m o.
 
